@@ -2,15 +2,14 @@
 From Coq Require Import ZArith QArith List Bool.
 From KV Require Import Base.IEEE Base.Outcome Base.Num C19.Model C06.Model C06.Dur C06.Run.
 From KV Require Import C04.Transport C04.Resampler C04.StaticData C04.StaticSound C04.ProofsTransport.
-From KV Require C18.Model C18.ProofsSched.
-From KV Require Import C09.Model C09.ProofsShell C09.ProofsTape C09.ProofsMain C09.ProofsLead C09.ProofsAtomic C09.ProofsExamples C09.Run.
+From KV Require Import C09.Model C09.ProofsShell C09.ProofsDecoder C09.ProofsTape C09.ProofsMain C09.ProofsLead C09.ProofsAtomic C09.ProofsExamples C09.Run.
 Import ListNotations.
 Local Open Scope Z_scope.
 
 (** THE SIMULATION.  For ANY time type, frame type, sample / volume / panning operations (so: bit for bit in
     IEEE arithmetic), any audio, slice inside it, start position (also beyond the end), loop region (also empty,
     inverted or beyond the end), start time, initial volume / rate / panning values (fixed or modulator-linked),
-    fade-in, any conforming decoder (any packet sizes, any seek landings), any history of decoder-loop iterations
+    fade-in, any conforming decoder (any packet sizes INCLUDING EMPTY PACKETS, fewer than [EP] in a row; any seek landings), any history of decoder-loop iterations
     and callbacks with volume / rate / panning / pause / resume / resume_at / stop commands and any infos, in which
     every rate value read is non-negative:  the two constructors succeed and the two handles report the same
     position and state before the first callback, and whenever the streaming run completes
@@ -25,17 +24,19 @@ Theorem streaming_simulates_static_any :
          (A : Type) (azero : A) (F : Type) (interp : A -> A -> A -> A -> F -> A) (cast : T -> F) (ascale : A -> F -> A)
          (V : Type) (vinterp : V -> V -> T -> V) (silence identity : V) (amp : V -> F)
          (P : Type) (pinterp : P -> P -> T -> P) (pcenter : P) (panned : A -> P -> A)
-         (fuel : nat) (audio : list A) (cap sr : Z) (slice : option (Z * Z)) (g : settings T V P) (B : Z),
-    wf_config A azero V P fuel audio sr slice g B ->
-    forall (psize land : nat -> nat) (evs : list (event T V P)),
+         (fuel : nat) (audio : list A) (cap sr : Z) (slice : option (Z * Z)) (g : settings T V P) (B : Z) (EP : nat),
+    wf_config A azero V P fuel audio sr slice g B EP ->
+    forall (D : Type) (dpos dsize : D -> nat) (dnext : D -> D) (dseek : D -> nat -> D) (derr : D -> bool) (d0 : D),
+    conforming A audio D dpos dsize dnext dseek derr EP ->
+    forall (evs : list (event T V P)),
       rates_nonneg powf V P g evs ->
       exists x0 w0,
         static_new A azero V silence identity P pcenter fuel sr (audio_source A azero audio) slice g = Ok x0 /\
-        stream_new A azero V silence identity P pcenter audio land sr slice g = Ok w0 /\
+        stream_new A azero V silence identity P pcenter audio D dpos dseek d0 sr slice g = Ok w0 /\
         sh_pos (x_core x0) = y_pos (z_core (w_sound w0)) /\ h_mirror (x_shell x0) = h_mirror (z_shell (w_sound w0)) /\
         forall ys,
           run_stream powf A azero F interp cast ascale V vinterp silence identity amp P pinterp panned fuel
-                     audio psize land cap w0 evs = Ok (ys, false) ->
+                     audio D dpos dsize dnext dseek derr cap w0 evs = Ok (ys, false) ->
           exists xs,
             run_static powf A azero F interp cast ascale V vinterp silence identity amp P pinterp panned fuel x0 evs = Ok xs /\
             Forall2 (obs_rel A sr) xs ys.
@@ -49,16 +50,20 @@ Theorem packetisation_independent :
          (A : Type) (azero : A) (F : Type) (interp : A -> A -> A -> A -> F -> A) (cast : T -> F) (ascale : A -> F -> A)
          (V : Type) (vinterp : V -> V -> T -> V) (silence identity : V) (amp : V -> F)
          (P : Type) (pinterp : P -> P -> T -> P) (pcenter : P) (panned : A -> P -> A)
-         (fuel : nat) (audio : list A) (cap sr : Z) (slice : option (Z * Z)) (g : settings T V P) (B : Z),
-    wf_config A azero V P fuel audio sr slice g B ->
-    forall (psize land psize' land' : nat -> nat) (evs : list (event T V P)),
+         (fuel : nat) (audio : list A) (cap sr : Z) (slice : option (Z * Z)) (g : settings T V P) (B : Z) (EP : nat),
+    wf_config A azero V P fuel audio sr slice g B EP ->
+    forall (D : Type) (dpos dsize : D -> nat) (dnext : D -> D) (dseek : D -> nat -> D) (derr : D -> bool) (d0 : D),
+    conforming A audio D dpos dsize dnext dseek derr EP ->
+    forall (D' : Type) (dpos' dsize' : D' -> nat) (dnext' : D' -> D') (dseek' : D' -> nat -> D') (derr' : D' -> bool) (d0' : D'),
+    conforming A audio D' dpos' dsize' dnext' dseek' derr' EP ->
+    forall (evs : list (event T V P)),
       exists w0 w0',
-        stream_new A azero V silence identity P pcenter audio land sr slice g = Ok w0 /\
-        stream_new A azero V silence identity P pcenter audio land' sr slice g = Ok w0' /\
+        stream_new A azero V silence identity P pcenter audio D dpos dseek d0 sr slice g = Ok w0 /\
+        stream_new A azero V silence identity P pcenter audio D' dpos' dseek' d0' sr slice g = Ok w0' /\
         run_stream powf A azero F interp cast ascale V vinterp silence identity amp P pinterp panned fuel
-                   audio psize land cap w0 evs =
+                   audio D dpos dsize dnext dseek derr cap w0 evs =
         run_stream powf A azero F interp cast ascale V vinterp silence identity amp P pinterp panned fuel
-                   audio psize' land' cap w0' evs.
+                   audio D' dpos' dsize' dnext' dseek' derr' cap w0' evs.
 Proof. exact (@packet_independence). Qed.
 
 (** The simulation in exact arithmetic, with "the same reported positions (within one frame)" spelled out: under the
@@ -69,17 +74,19 @@ Theorem streaming_simulates_static_Q :
   forall (powf : Q -> Q -> Q) (A : Type) (azero : A) (F : Type) (interp : A -> A -> A -> A -> F -> A) (cast : Q -> F)
          (ascale : A -> F -> A) (V : Type) (vinterp : V -> V -> Q -> V) (silence identity : V) (amp : V -> F)
          (P : Type) (pinterp : P -> P -> Q -> P) (pcenter : P) (panned : A -> P -> A)
-         (fuel : nat) (audio : list A) (cap sr : Z) (slice : option (Z * Z)) (g : settings Q V P) (B : Z),
-    wf_config A azero V P fuel audio sr slice g B -> 0 < sr ->
-    forall (psize land : nat -> nat) (evs : list (event Q V P)),
+         (fuel : nat) (audio : list A) (cap sr : Z) (slice : option (Z * Z)) (g : settings Q V P) (B : Z) (EP : nat)
+         (D : Type) (dpos dsize : D -> nat) (dnext : D -> D) (dseek : D -> nat -> D) (derr : D -> bool) (d0 : D),
+    wf_config A azero V P fuel audio sr slice g B EP -> 0 < sr ->
+    conforming A audio D dpos dsize dnext dseek derr EP ->
+    forall (evs : list (event Q V P)),
       rates_nonneg powf V P g evs -> dts_nonneg V P evs ->
       exists x0 w0,
         static_new A azero V silence identity P pcenter fuel sr (audio_source A azero audio) slice g = Ok x0 /\
-        stream_new A azero V silence identity P pcenter audio land sr slice g = Ok w0 /\
+        stream_new A azero V silence identity P pcenter audio D dpos dseek d0 sr slice g = Ok w0 /\
         sh_pos (x_core x0) = y_pos (z_core (w_sound w0)) /\ h_mirror (x_shell x0) = h_mirror (z_shell (w_sound w0)) /\
         forall ys,
           run_stream powf A azero F interp cast ascale V vinterp silence identity amp P pinterp panned fuel
-                     audio psize land cap w0 evs = Ok (ys, false) ->
+                     audio D dpos dsize dnext dseek derr cap w0 evs = Ok (ys, false) ->
           exists xs,
             run_static powf A azero F interp cast ascale V vinterp silence identity amp P pinterp panned fuel x0 evs = Ok xs /\
             Forall2 (pos_close A sr) xs ys.
@@ -119,10 +126,12 @@ Theorem streaming_fraction_in_unit_interval_Q :
   forall (A : Type) (azero : A) (F : Type) (interp : A -> A -> A -> A -> F -> A) (cast : Q -> F) (fuel : nat)
          (powf : Q -> Q -> Q) (ascale : A -> F -> A) (V : Type) (vinterp : V -> V -> Q -> V) (silence identity : V)
          (amp : V -> F) (P : Type) (pinterp : P -> P -> Q -> P) (panned : A -> P -> A) (audio : list A)
-         (psize land : nat -> nat) (cap : Z) (evs : list (event Q V P)) (w : stream Q A V P)
+         (D : Type) (dpos dsize : D -> nat) (dnext : D -> D) (dseek : D -> nat -> D) (derr : D -> bool)
+         (cap : Z) (evs : list (event Q V P)) (w : stream Q A V P D)
          (ys : list (obs Q A)) (st : bool),
-    w_ok A V P w -> dts_nonneg V P evs ->
-    run_stream powf A azero F interp cast ascale V vinterp silence identity amp P pinterp panned fuel audio psize land cap w evs
+    w_ok A V P D w -> dts_nonneg V P evs ->
+    run_stream powf A azero F interp cast ascale V vinterp silence identity amp P pinterp panned fuel audio
+               D dpos dsize dnext dseek derr cap w evs
       = Ok (ys, st) ->
     Forall (pos_frac_ok A) ys.
 Proof. exact (@run_frac). Qed.
@@ -135,34 +144,62 @@ Theorem positions_within_one_frame_Q :
     (0 <= (py - px) * inject_Z sr /\ (py - px) * inject_Z sr < 1)%Q.
 Proof. exact pos_within. Qed.
 
-(** The decoder contract is all the scheduler needs: over ANY packetisation and seek-landing function,
-    [frame_at_index] at a playing transport position returns the frame of the audio under the slice that the static
-    sound reads there (zero beyond the slice), and keeps its bookkeeping consistent. *)
+(** The decoder contract is all the scheduler needs: over ANY conforming decoder — any packet sizes, EMPTY packets
+    included (fewer than [EP] in a row), any seek landings — [frame_at_index] at a playing transport position returns
+    the frame of the audio under the slice that the static sound reads there (zero beyond the slice), and keeps its
+    bookkeeping consistent. *)
 Theorem scheduler_frame_correct :
   forall (A : Type) (azero : A) (fuel : nat) (audio : list A) (slice : option (Z * Z)) (start : Z)
          (lr : option (Z * Z)) (B : Z),
     slice_wf A audio slice -> Z.of_nat (length audio) < u64_max -> 0 <= start -> start < B ->
-    N A azero audio slice <= B -> B < u64_max -> B < Z.of_nat fuel -> req_loop B lr -> (length audio <= fuel)%nat ->
-    forall (ps ld : nat -> nat) (q : producer A) (j : nat),
-      q_slice q = slice -> q_n q = N A azero audio slice -> KV.C18.ProofsSched.inv audio (q_dec q) ->
+    N A azero audio slice <= B -> B < u64_max -> B < Z.of_nat fuel -> req_loop B lr ->
+    forall EP : nat, (need_fuel (length audio) EP <= fuel)%nat ->
+    forall (D : Type) (dpos dsize : D -> nat) (dnext : D -> D) (dseek : D -> nat -> D) (derr : D -> bool),
+      conforming A audio D dpos dsize dnext dseek derr EP ->
+      forall (q : producer A D) (j : nat),
+      q_slice q = slice -> q_n q = N A azero audio slice -> dinv A audio D dpos (q_dec q) ->
       pl A azero fuel audio slice start lr j = true ->
       exists dec',
-        q_frame_at_index A azero fuel audio ps ld q (t_pos (tr_at A azero fuel audio slice start lr j))
+        q_frame_at_index A azero fuel audio D dpos dsize dnext dseek derr q (t_pos (tr_at A azero fuel audio slice start lr j))
           = Ok (Some (rf_frame (prec A azero fuel audio slice start lr (S j))), dec') /\
-        KV.C18.ProofsSched.inv audio dec'.
+        dinv A audio D dpos dec'.
 Proof. exact (@q_frame_at_index_any). Qed.
 
 (** The natural end is detected in the same frame: the static sound's "transport stopped and resampler empty" flag
     after [h + 3] position updates equals the streaming sound's "reached_end and ring empty". *)
 Theorem natural_end_agrees :
   forall (A : Type) (azero : A) (fuel : nat) (audio : list A) (slice : option (Z * Z)) (start : Z)
-         (lr : option (Z * Z)),
-    (length audio <= fuel)%nat ->
+         (lr : option (Z * Z)) (EP : nat),
+    (need_fuel (length audio) EP <= fuel)%nat ->
     forall (hx hz m : nat) (fin : bool),
       Rel A azero fuel audio slice start lr hx hz m fin ->
       flag_at A azero fuel audio slice start lr (hx + 3) =
       fin && (match ring_at A azero fuel audio slice start lr hz m with [] => true | _ => false end).
 Proof. exact (@Rel_flag). Qed.
+
+(** The decode loop itself, for ANY decoder satisfying the contract's clauses (with [idle] the witness of "fewer than
+    [E] empty packets in a row"): from a consistent state at or before [index] it returns frame [index] of the audio
+    within [(index - position) * E + idle] iterations — empty packets are stored like any other chunk and the loop
+    goes round again; it never substitutes silence. *)
+Theorem decode_loop_finds_frame :
+  forall (A : Type) (azero : A) (audio : list A) (D : Type) (dpos dsize : D -> nat) (dnext : D -> D) (derr : D -> bool)
+         (E : nat) (idle : D -> nat),
+    (forall d, (dpos d < length audio)%nat -> derr d = false) ->
+    (forall d, derr d = false -> dpos (dnext d) = (dpos d + Nat.min (dsize d) (length audio - dpos d))%nat) ->
+    (forall d, (idle d < E)%nat /\ ((dpos d < length audio)%nat -> dsize d = 0%nat -> (idle (dnext d) < idle d)%nat)) ->
+    forall (fuel : nat) (s : dsched A D) (index : nat),
+      dinv A audio D dpos s -> (dpos (ds_dec s) <= index < length audio)%nat ->
+      ((index - dpos (ds_dec s)) * E + idle (ds_dec s) < fuel)%nat ->
+      exists s', decode_loop A audio D dpos dsize dnext derr fuel s index = Ok (Some (nth index audio azero), s') /\
+                 dinv A audio D dpos s'.
+Proof. exact (@decode_loop_ok). Qed.
+
+(** Outside the contract: a decoder that returns empty packets for ever.  The loop never returns — the real decoder
+    thread spins in [frame_at_index] without sleeping and without looking at the sound's state. *)
+Theorem endless_empty_packets_hang_refuted :
+  forall (A : Type) (audio : list A) (fuel : nat) (s : dsched A unit) (index : nat),
+    decode_loop A audio unit (fun _ => 0%nat) (fun _ => 0%nat) (fun d => d) (fun _ => false) fuel s index = Hang.
+Proof. exact endless_empty_packets_hang. Qed.
 
 (** a non-negative rate is what both sounds advance by: [abs] and [max(0.0)] leave it alone *)
 Theorem nonneg_rate_same_step :
@@ -185,20 +222,22 @@ Theorem mirror_shows_state :
 Proof. exact (@mirror_ok_update). Qed.
 
 (** ** the hypotheses are satisfiable together: a sliced, looping sound started inside the slice, rate and volume
-    tweens, a pause and a resume, a decoder with packets of 1, 2, 3, ... frames whose seeks land on multiples of 4 *)
+    tweens, a pause and a resume, a decoder whose every other packet is EMPTY, the others of 1, 2, 3 frames, whose
+    seeks land on multiples of 4 *)
 Theorem hypotheses_satisfiable :
-  wf_config fq zq Q Q fuelq audio8 4 (Some (1, 7)) g1 7 /\ rates_nonneg powq Q Q g1 evs1 /\
-  exists w ys, y_newq audio8 ld1 4 (Some (1, 7)) g1 = Ok w /\ y_runq audio8 ps1 ld1 capq w evs1 = Ok (ys, false) /\
+  conforming fq audio8 dq dq_pos dq_size dq_next dq_seek dq_err 2 /\
+  wf_config fq zq Q Q fuelq audio8 4 (Some (1, 7)) g1 7 2 /\ rates_nonneg powq Q Q g1 evs1 /\
+  exists w ys, y_newq 4 (Some (1, 7)) g1 = Ok w /\ y_runq w evs1 = Ok (ys, false) /\
                (13 <= length ys)%nat.
-Proof. exact (conj wf1 (conj rates1 ahead1)). Qed.
+Proof. exact (conj dq_conforming (conj wf1 (conj rates1 ahead1))). Qed.
 
 (** ** each hypothesis is needed *)
 (** the decoder does not keep ahead (three frames in the ring before a call that looks at four): outputs differ *)
 Theorem starved_refuted :
-  wf_config fq zq Q Q fuelq audio8 4 None g2 8 /\ rates_nonneg powq Q Q g2 evs2 /\
+  wf_config fq zq Q Q fuelq audio8 4 None g2 8 2 /\ rates_nonneg powq Q Q g2 evs2 /\
   exists x w xs ys,
-    s_newq 4 (audio_source fq zq audio8) None g2 = Ok x /\ y_newq audio8 ld1 4 None g2 = Ok w /\
-    s_runq x evs2 = Ok xs /\ y_runq audio8 ps1 ld1 capq w evs2 = Ok (ys, true) /\
+    s_newq 4 (audio_source fq zq audio8) None g2 = Ok x /\ y_newq 4 None g2 = Ok w /\
+    s_runq x evs2 = Ok xs /\ y_runq w evs2 = Ok (ys, true) /\
     ~ Forall2 (obs_rel fq 4) xs ys.
 Proof. exact starved_witness. Qed.
 
@@ -207,17 +246,17 @@ Proof. exact starved_witness. Qed.
 Theorem slice_beyond_audio_refuted :
   ~ slice_wf fq audio8 (Some (5, 11)) /\ rates_nonneg powq Q Q g2 evs3 /\
   exists x w xs ys,
-    s_newq 4 (audio_source fq zq audio8) (Some (5, 11)) g2 = Ok x /\ y_newq audio8 ld1 4 (Some (5, 11)) g2 = Ok w /\
-    s_runq x evs3 = Ok xs /\ y_runq audio8 ps1 ld1 capq w evs3 = Ok (ys, false) /\
+    s_newq 4 (audio_source fq zq audio8) (Some (5, 11)) g2 = Ok x /\ y_newq 4 (Some (5, 11)) g2 = Ok w /\
+    s_runq x evs3 = Ok xs /\ y_runq w evs3 = Ok (ys, false) /\
     ~ Forall2 (obs_rel fq 4) xs ys.
 Proof. exact slice_beyond_witness. Qed.
 
 (** a negative rate: the static sound plays backwards, the streaming sound stands still *)
 Theorem negative_rate_refuted :
-  wf_config fq zq Q Q fuelq audio8 4 None g4 8 /\ ~ rates_nonneg powq Q Q g4 evs4 /\
+  wf_config fq zq Q Q fuelq audio8 4 None g4 8 2 /\ ~ rates_nonneg powq Q Q g4 evs4 /\
   exists x w xs ys,
-    s_newq 4 (audio_source fq zq audio8) None g4 = Ok x /\ y_newq audio8 ld1 4 None g4 = Ok w /\
-    s_runq x evs4 = Ok xs /\ y_runq audio8 ps1 ld1 capq w evs4 = Ok (ys, false) /\
+    s_newq 4 (audio_source fq zq audio8) None g4 = Ok x /\ y_newq 4 None g4 = Ok w /\
+    s_runq x evs4 = Ok xs /\ y_runq w evs4 = Ok (ys, false) /\
     ~ Forall2 (obs_rel fq 4) xs ys.
 Proof. exact negative_rate_witness. Qed.
 
